@@ -1407,3 +1407,79 @@ CONTRACTS[U + 'random_clifford'] = dict(
     ensures=['rows(result) == 2 * N', 'cols(result) == 2 * N', 'bits2(result)', 'gram_map(result, N)'],
     modifies=[], returns='int2 fresh',
 )
+
+# ------------------------------------------------------------------ C19: a signed product of active stabilizers has expectation +1
+# (the bridge between what StabilizerState.sample returns - its contract - and what stabilizer_expect computes - its contract)
+LEMMAS['ordg_selext'] = dict(
+    doc='the string of an ordered product depends on the selection only through which entries are non-zero',
+    params=[('sel', 'int1'), ('sel2', 'int1'), ('G', 'int2'), ('n', 'int'), ('c', 'int')],
+    requires=['forall(i, 0, n, (sel[i] != 0) == (sel2[i] != 0))'],
+    ensures=['OrdG(sel, G, n, c) == OrdG(sel2, G, n, c)'],
+    induction='n',
+)
+LEMMAS['ordp_selext'] = dict(
+    doc='... and so does its phase',
+    params=[('sel', 'int1'), ('sel2', 'int1'), ('G', 'int2'), ('P', 'int1'), ('n', 'int'), ('N', 'int')],
+    requires=['forall(i, 0, n, (sel[i] != 0) == (sel2[i] != 0))', 'cols(G) == 2 * N', 'N >= 0'],
+    ensures=['OrdP(sel, G, P, n, N) == OrdP(sel2, G, P, n, N)'],
+    induction='n',
+    uses_step=[('forall_lemma', [('c', '0', '2 * N')], 'ordg_selext', ['sel', 'sel2', 'G', 'n - 1', 'c']),
+               ('lemma', 'ipowsum_ext', ['OrdGRow(sel, G, n - 1)', 'OrdGRow(sel2, G, n - 1)', 'G[n - 1]', 'N'])],
+)
+_meD = 'DestabSel(gs, obs, r, N)'
+LEMMAS['member_expect'] = dict(
+    doc='an operator that IS (entry by entry) the ordered product of the active stabilizers selected by sel, with the phase of that '
+        'product, has expectation +1: it commutes with every stabilizer and standby row, the active destabilizers that anticommute with '
+        'it are exactly the partners of the selected stabilizers, so the sign the expectation kernel reconstructs is its own phase',
+    params=[('gs', 'int2'), ('ps', 'int1'), ('sel', 'int1'), ('obs', 'int1'), ('pobs', 'int'), ('r', 'int'), ('N', 'int')],
+    requires=['tab(gs, N)', 'len(ps) == 2 * N', '0 <= r <= N', 'forall(i, 0, N, 0 <= sel[i] <= 1)', 'forall(i, 0, r, sel[i] == 0)',
+              'forall(k, 0, 2 * N, obs[k] == OrdG(sel, gs, N, k))', 'pobs == OrdP(sel, gs, ps, N, N)'],
+    ensures=['no_anti(gs, obs, N + r, N)',
+             'forall(i, 0, N, %s[i] == sel[i])' % _meD,
+             'OrdP(%s, gs, ps, N, N) == OrdP(sel, gs, ps, N, N)' % _meD,
+             'expect_val(1, gs, ps, obs, pobs, r, N)'],
+    uses=[('forall_lemma', [('i', '0', '2 * N')], 'ordg_acq', ['sel', 'gs', 'N', 'gs[i]', 'N']),
+          ('forall_lemma', [('i', '0', '2 * N')], 'acqsum_ext', ['OrdGRow(sel, gs, N)', 'obs', 'gs[i]', 'N']),
+          ('forall_lemma', [('i', '0', '2 * N')], 'selacq_gram', ['sel', 'gs', 'N', 'i', 'N']),
+          ('lemma', 'ordp_selext', [_meD, 'sel', 'gs', 'ps', 'N', 'N'])],
+)
+LEMMAS['ordg_nosel'] = dict(
+    doc='nothing selected: the product is the identity string with phase 0',
+    params=[('sel', 'int1'), ('G', 'int2'), ('P', 'int1'), ('m', 'int'), ('N', 'int'), ('c', 'int')],
+    requires=['forall(i, 0, m, sel[i] == 0)'],
+    ensures=['OrdG(sel, G, m, c) == 0', 'OrdP(sel, G, P, m, N) == 0'],
+    induction='m',
+)
+_ssS, _ssP, _ssL = 'RowSlice(gs, r, N)', 'Slice1(ps, r, N)', 'ShiftSel(c, r, N)'
+LEMMAS['ordg_slice'] = dict(
+    doc='a product over the rows r .. N-1 taken as a slice is the product over the whole tableau with the selection shifted by r',
+    params=[('c', 'int1'), ('gs', 'int2'), ('ps', 'int1'), ('r', 'int'), ('N', 'int'), ('n', 'int'), ('col', 'int')],
+    requires=['0 <= r', '0 <= n', 'r + n <= N'],
+    ensures=['OrdG(c, %s, n, col) == OrdG(%s, gs, r + n, col)' % (_ssS, _ssL)],
+    induction='n',
+    uses=[('lemma', 'ordg_nosel', [_ssL, 'gs', 'ps', 'r', 'N', 'col'])],
+)
+LEMMAS['ordp_slice'] = dict(
+    doc='... and the same for the phase',
+    params=[('c', 'int1'), ('gs', 'int2'), ('ps', 'int1'), ('r', 'int'), ('N', 'int'), ('n', 'int')],
+    requires=['0 <= r', '0 <= n', 'r + n <= N', 'cols(gs) == 2 * N'],
+    ensures=['OrdP(c, %s, %s, n, N) == OrdP(%s, gs, ps, r + n, N)' % (_ssS, _ssP, _ssL)],
+    induction='n',
+    uses=[('lemma', 'ordg_nosel', [_ssL, 'gs', 'ps', 'r', 'N', '0'])],
+    uses_step=[('forall_lemma', [('col', '0', '2 * N')], 'ordg_slice', ['c', 'gs', 'ps', 'r', 'N', 'n - 1', 'col']),
+               ('lemma', 'ipowsum_ext', ['OrdGRow(c, %s, n - 1)' % _ssS, 'OrdGRow(%s, gs, r + n - 1)' % _ssL, 'gs[r + n - 1]', 'N'])],
+)
+_soO = 'OrdGRow(c, %s, N - r)' % _ssS
+_soP = 'OrdP(c, %s, %s, N - r, N)' % (_ssS, _ssP)
+LEMMAS['sample_expect_one'] = dict(
+    doc='what StabilizerState.sample returns (its contract: row = ordered product of the active stabilizers RowSlice(gs, r, N) selected by a '
+        'bit row c, phase = the phase of that product) has expectation +1 in the state (contract of stabilizer_expect)',
+    params=[('gs', 'int2'), ('ps', 'int1'), ('c', 'int1'), ('r', 'int'), ('N', 'int')],
+    # r < N: with no active stabilizer (r == N) every sample is the identity string with phase 0 - true as well, but the executable
+    # spec function OrdGRow cannot know the row length of an empty slice, so that case is left to the bounded check
+    requires=['tab(gs, N)', 'len(ps) == 2 * N', '0 <= r < N', 'len(c) == N - r', 'bits1(c)'],
+    ensures=['expect_val(1, gs, ps, %s, %s, r, N)' % (_soO, _soP)],
+    uses=[('forall_lemma', [('col', '0', '2 * N')], 'ordg_slice', ['c', 'gs', 'ps', 'r', 'N', 'N - r', 'col']),
+          ('lemma', 'ordp_slice', ['c', 'gs', 'ps', 'r', 'N', 'N - r']),
+          ('lemma', 'member_expect', ['gs', 'ps', _ssL, _soO, _soP, 'r', 'N'])],
+)
